@@ -639,7 +639,26 @@ fn script_numbers(r: &mut Rng, base: &[u8]) -> (Vec<u8>, &'static str) {
 }
 
 fn amplify(r: &mut Rng, leaf: &str) -> (String, &'static str) {
-    match r.below(6) {
+    match r.below(7) {
+        6 => {
+            // derivation paths at and beyond the BIP32 depth limit (the depth byte of an xpub is a u8)
+            let y = "tpubD6NzVbkrYhZ4WaWSyoBvQwbpLkojyoTZPRsgXELWz3Popb3qkjcJyJUGLnL4qHHoQvao8ESaAstxYSnhyswJ76uZPStJRJCTKvosUCJZL5B";
+            let n = *r.pick(&[250u64, 254, 255, 256, 257, 300, 1000]);
+            let mut k = String::from(y);
+            for i in 0..n {
+                k.push_str(if i % 7 == 3 { "/1" } else { "/0" });
+            }
+            if r.chance(1, 2) {
+                k.push_str("/*");
+            }
+            let s = match r.below(4) {
+                0 => format!("wpkh({})", k),
+                1 => format!("wsh(pk({}))", k),
+                2 => format!("tr({})", k),
+                _ => format!("sh(multi(1,{},{}/5))", k, y),
+            };
+            (s, "derivation_depth")
+        }
         5 => {
             // near-valid: multipath keys with different numbers of alternatives in one descriptor
             let x = "tpubDBrgjcxBxnXyL575sHdkpKohWu5qHKoQ7TJXKNrYznh5fVEGBv89hA8ENW7A8MFVpFUSvgLqc4Nj1WZcpePX6rrxviVtPowvMuGF5rdT2Vi";
@@ -792,7 +811,7 @@ pub fn wire_case(ws: &WireSeeds, r: &mut Rng) -> WireCase {
             };
             if r.chance(1, 6) && kind != "key" {
                 let (s, f) = amplify(r, "pk(A)");
-                let s = if kind == "descriptor" && !s.starts_with("tr(") && !s.starts_with("wsh(") && !s.starts_with("sh(") { format!("wsh({})", s) } else { s };
+                let s = if kind == "descriptor" && !s.starts_with("tr(") && !s.starts_with("wsh(") && !s.starts_with("sh(") && !s.starts_with("wpkh(") { format!("wsh({})", s) } else { s };
                 return WireCase { kind, fault: f, data: s.into_bytes(), aux: vec![] };
             }
             let base = pick_s(r, pool);
@@ -934,6 +953,47 @@ pub fn wire_case(ws: &WireSeeds, r: &mut Rng) -> WireCase {
             }
             let base = r.pick(&ws.psbts).clone();
             let other = r.pick(&ws.psbts).clone();
+            // field-level damage: a peer that leaves out (optional or required) fields of an input,
+            // or moves them between inputs; the result is a well-formed PSBT
+            if r.chance(1, 3) {
+                if let Ok(mut p) = bitcoin::psbt::Psbt::deserialize(&base) {
+                    let n = p.inputs.len();
+                    for _ in 0..r.range(1, 3) {
+                        if n == 0 {
+                            break;
+                        }
+                        let i = r.below(n as u64) as usize;
+                        let j = r.below(n as u64) as usize;
+                        match r.below(12) {
+                            0 => p.inputs[i].bip32_derivation.clear(),
+                            1 => p.inputs[i].tap_key_origins.clear(),
+                            2 => p.inputs[i].witness_script = None,
+                            3 => p.inputs[i].redeem_script = None,
+                            4 => p.inputs[i].tap_internal_key = None,
+                            5 => p.inputs[i].tap_merkle_root = None,
+                            6 => p.inputs[i].tap_scripts.clear(),
+                            7 => p.inputs[i].witness_utxo = None,
+                            8 => p.inputs[i].non_witness_utxo = None,
+                            9 => {
+                                let x = p.inputs[j].partial_sigs.clone();
+                                p.inputs[i].partial_sigs.extend(x);
+                            }
+                            10 => {
+                                let k: Vec<_> = p.inputs[i].tap_key_origins.keys().copied().collect();
+                                if let Some(k) = k.first() {
+                                    p.inputs[i].tap_key_origins.remove(k);
+                                }
+                            }
+                            _ => {
+                                let x = p.inputs[j].clone();
+                                p.inputs[i] = x;
+                            }
+                        }
+                    }
+                    let aux = if ws.definite.is_empty() { vec![] } else { r.pick(&ws.definite).as_bytes().to_vec() };
+                    return WireCase { kind: "psbt", fault: "psbt_fields", data: p.serialize(), aux };
+                }
+            }
             let (mut data, mut fault) = mutate(r, &base, &other);
             if r.chance(1, 3) {
                 let (d2, f2) = mutate(r, &data, &other);
@@ -1049,7 +1109,27 @@ pub fn wire_exec(c: &WireCase) -> u32 {
                 if let Ok(p) = WalletPolicy::from_str(s) {
                     reached |= 1;
                     let _ = p.to_string();
-                    let _ = p.into_descriptor();
+                    let _ = p.clone().into_descriptor();
+                    // key information from an untrusted host (BIP388 flow): keys of every form,
+                    // including ones the template's script context does not allow
+                    const HOST_KEYS: [&str; 5] = [
+                        "tpubD6NzVbkrYhZ4WaWSyoBvQwbpLkojyoTZPRsgXELWz3Popb3qkjcJyJUGLnL4qHHoQvao8ESaAstxYSnhyswJ76uZPStJRJCTKvosUCJZL5B",
+                        "02a489e0ea42b56148d212d325b7c67c6460483ff931c303ea311edfef667c8f35",
+                        "04a34b99f22c790c4e36b2b3c2c35a36db06226e41c692fc82b8b56ac1c540c5bd5b8dec5235a0fa8722476c7709c02559e3aa73aa03918ba2d492eea75abea235",
+                        "a489e0ea42b56148d212d325b7c67c6460483ff931c303ea311edfef667c8f35",
+                        "[d34db33f/48'/0'/0']tpubD6NzVbkrYhZ4WaWSyoBvQwbpLkojyoTZPRsgXELWz3Popb3qkjcJyJUGLnL4qHHoQvao8ESaAstxYSnhyswJ76uZPStJRJCTKvosUCJZL5B",
+                    ];
+                    let pick = c.data.len() + c.data.iter().map(|b| *b as usize).sum::<usize>();
+                    for off in 0..HOST_KEYS.len() {
+                        let keys: Vec<DescriptorPublicKey> = (0..8).filter_map(|i| DescriptorPublicKey::from_str(HOST_KEYS[(pick + off + i * (1 + off)) % HOST_KEYS.len()]).ok()).collect();
+                        for n in 1..=keys.len() {
+                            let mut q = p.clone();
+                            if q.set_key_info(&keys[..n]).is_ok() {
+                                reached |= 2;
+                                let _ = q.into_descriptor();
+                            }
+                        }
+                    }
                 }
             }
         }
